@@ -532,6 +532,32 @@ def setup():
     if not any(REF[k][c][0] for k in REF for c in SYMBOLS):
         raise HarnessError('the eager reference resolver answers nothing at all: VCF generation is broken')
     _names_reference()
+    _other_vcf_history()
+
+
+def _other_vcf_history():
+    """History shared by every run of the process (setup() runs before the shard workers are forked, and replay() calls it too):
+    resolvers on ANOTHER VCF were asked, in the lazy and in the cache mode, about the contigs of the VCF under test - which that
+    other file does not have - and the other way round.  Nothing a resolver learns about a contig name may outlive the object
+    or apply to another file."""
+    from singlecellmultiomics.alleleTools import AlleleResolver
+    d = tempfile.mkdtemp(prefix='othervcf_', dir=_ROOT)
+    try:
+        main = G.clone(_MASTER, os.path.join(d, 'main'))
+        names = G.clone_names(_MASTER, os.path.join(d, 'names'))
+        with _quiet():
+            for vcf, foreign in ((names, tuple(SYMBOLS)), (main, tuple(G.NAME_CONTIGS))):
+                for kw in ({'lazyLoad': True}, {'lazyLoad': True, 'use_cache': True}):
+                    try:
+                        ar = AlleleResolver(vcf, **kw)
+                        for contig in foreign:
+                            for pos in G.PROBE_POSITIONS[:2]:
+                                ar.has_location(contig, pos)
+                                ar.getAllelesAt(contig, pos, 'A')
+                    except Exception:
+                        pass      # what a resolver answers about a contig its file lacks is judged by the runs, not here
+    finally:
+        shutil.rmtree(d, ignore_errors=True)
 
 
 def _kind(contig):
